@@ -550,3 +550,16 @@ pub fn case_text(case: &Value) -> String {
     }
     case.get("input").and_then(|x| x.as_str()).unwrap_or("").to_string()
 }
+
+
+/// Decode fuzzer bytes into a value of `strategy`: proptest's pass-through RNG hands the bytes to
+/// the strategy as its random stream, so every proptest generator is also a structure-aware
+/// libFuzzer decoder.
+pub fn from_bytes<S: Strategy>(strategy: &S, data: &[u8]) -> Option<S::Value> {
+    if data.is_empty() {
+        return None;
+    }
+    let rng = TestRng::from_seed(RngAlgorithm::PassThrough, data);
+    let mut runner = TestRunner::new_with_rng(Config { failure_persistence: None, ..Config::default() }, rng);
+    strategy.new_tree(&mut runner).ok().map(|t| t.current())
+}
